@@ -100,11 +100,13 @@ def run(pid, tier):
                        '(class of x + class of y + {x, y}) squared, returns true iff x and y were unrelated, and keeps wf - for every history, unbounded; lemma_add_is_least '
                        'shows this is the least equivalence containing the old relation and (x, y); contains(x, y) == related(x, y); elem_set / get_dominant_id return the root; '
                        'get_dominant_id_update / elem_set_update (path compression) change no root; merge_sets is set union; set_of is Some exactly for known elements; '
+                       'EqRelIndCommon::added_contains decides "in combined and not in old" (the reading of a delta version); '
                        'termination of the two recursive functions is proved from the rank. The delta/total protocol on top (eqrel_ind.rs) is only a bounded native stand-in.',
         'backends': {'verus': {'functions_verified': ok, 'functions_total': len(funcs), 'solver_wall_s': round(v.get('verus_s', 0.0), 2),
                                'real_functions_under_contract': [r['fn'] for r in log.real_fns] if log else [],
                                'vacuity_canary_failed_as_required': v.get('canary_ok', False)}},
-        'functions_under_contract': ['ascent_byods_rels::union_find::EqRel::%s' % r['fn'] if r['container'] else 'ascent_byods_rels::utils::%s' % r['fn'] for r in (log.real_fns if log else [])],
+        'functions_under_contract': [('ascent_byods_rels::eqrel_ind::EqRelIndCommon::%s' if 'EqRelIndCommon' in r['container'] else 'ascent_byods_rels::union_find::EqRel::%s') % r['fn'] if r['container']
+                                     else 'ascent_byods_rels::utils::%s' % r['fn'] for r in (log.real_fns if log else [])],
         'not_under_contract': ['EqRel::{combine, iter_all, count_exact, set_of_inc_x, c_set_of, c_iter_all} (iterator adapters / hash-set IntoIter: outside this Verus; '
                                'exercised by the bounded native companion through merge and the index views)',
                                'everything in eqrel_ind.rs, eqrel_ternary.rs, ceqrel_ind.rs (Rc::make_mut / get_mut, Box<dyn Iterator>, fn-pointer iterator types): bounded native '
